@@ -104,9 +104,7 @@ theorem callee_environment (f : Nat) (id : Nat) (ps : List (String × Ty)) (r : 
     (hn : ∀ name, s ≠ .native name) :
     callFn (f + 1) (.fn id ps r (s :: body) cap self) args =
       tryCatchS (do
-        let _ ← evalSeq f [((List.zip (ps.map (·.1)) args)).reverse ++
-            (match self with | some x => [(x, Val.fn id ps r (s :: body) cap self)] | none => []), cap]
-          (s :: body)
+        let _ ← evalSeq f (calleeEnv (.fn id ps r (s :: body) cap self) ps cap self args) (s :: body)
         pure Val.unit)
       (fun sg => match sg with
         | .ret v => pure v
@@ -119,6 +117,11 @@ theorem callee_environment (f : Nat) (id : Nat) (ps : List (String × Ty)) (r : 
     have : s = .native name := by injection heq
     exact absurd this (hn name)
   · rfl
+
+/-- the callee's environment: its parameters first, then its own name, then what it captured -/
+theorem callee_env_shape (fv : Val) (ps : List (String × Ty)) (cap : Frame) (x : String) (args : List Val) :
+    calleeEnv fv ps cap (some x) args = [((List.zip (ps.map (·.1)) args)).reverse ++ [(x, fv)], cap] ∧
+    calleeEnv fv ps cap none args = [((List.zip (ps.map (·.1)) args)).reverse ++ [], cap] := ⟨rfl, rfl⟩
 
 /-- a call depends on the caller's environment only through the values of the callee expression
     and of the arguments -/
